@@ -161,6 +161,9 @@ func (p *prov) origin(v ssa.Value, d int) string {
 	}
 	switch x := v.(type) {
 	case *ssa.Parameter:
+		if f := x.Parent(); f != nil && f.Signature.Recv() != nil && len(f.Params) > 0 && f.Params[0] == x {
+			return "recv" // the receiver, whatever it is called
+		}
 		return "param(" + x.Name() + ")"
 	case *ssa.Const:
 		if x.Value == nil {
